@@ -509,6 +509,9 @@ def contains(it, container, x, node=None):
         return ent[0]
     elif isinstance(container, SymMap):
         return it.lib.symmap_contains(it, container, x)
+    elif type(container).__name__ == 'HostOpaque':
+        from . import libattr
+        return libattr._host_fn(container.name + '.dom', z3.BoolSort())(libattr.host_opaque_key(x))
     elif isinstance(container, SymList):
         return it.lib.symlist_contains(it, container, x, node)
     elif isinstance(container, ClassVal) and container.kind in ('enum', 'flag', 'intflag', 'intenum'):
